@@ -1,0 +1,75 @@
+//go:build verif
+
+package corebgp
+
+// Ownership table (DESIGN section 5 item 5): which goroutine role may touch which
+// field of the shared objects once they are published. Roles are computed from the
+// SSA call graph rooted at each `go` target and API entry point; every field
+// access of the package is one obligation of the pseudo unit own:fields, and every
+// `writewhen` guard is an SMT obligation at each store inside the writing unit.
+
+//@ thread manager peer.run
+//@ thread starter peer.start before=manager
+//@ thread fsm fsm.run
+//@ thread reader fsm.read
+//@ thread dialer fsm.dialPeer$1
+//@ thread ka fsm.established$1
+//@ thread listener Server.Serve$2
+//@ thread api* Server.Serve Server.Close Server.AddPeer Server.DeletePeer Server.GetPeer Server.ListPeers
+//@ thread writer* updateMessageWriter.WriteUpdate
+
+//@ owned Server peer fsm updateMessageWriter
+
+// ---- Server: peers and serving are guarded by mu (contracts_server_verif.go) ----
+//@ owner Server.mu immutable
+//@ owner Server.id immutable
+//@ owner Server.doneServingCh immutable
+//@ owner Server.closeCh immutable
+//@ owner Server.closeOnce immutable
+
+// ---- peer: configuration is immutable; the slots, hold-down and delay state belong
+// to the manager goroutine (peer.start fills slot out before it spawns the manager) ----
+//@ owner peer.config immutable
+//@ owner peer.id immutable
+//@ owner peer.plugin immutable
+//@ owner peer.options immutable
+//@ owner peer.transitionCh immutable
+//@ owner peer.errorCh immutable
+//@ owner peer.inConnCh immutable
+//@ owner peer.closeOnce immutable
+//@ owner peer.closeCh immutable
+//@ owner peer.doneCh immutable
+//@ owner peer.fsms write=manager,starter
+//@ owner peer.fsmState write=manager,starter
+//@ owner peer.lastProtoError write=manager
+//@ owner peer.startupDelay write=manager
+//@ owner peer.startupDelayTimer write=manager
+//@ owner peer.inHoldDown write=manager
+
+// ---- fsm: everything belongs to the FSM goroutine; the reader, the dialer and the
+// keepalive manager read what was written before they were started ----
+//@ owner fsm.peer immutable
+//@ owner fsm.index immutable
+//@ owner fsm.closeOnce immutable
+//@ owner fsm.closeCh immutable
+//@ owner fsm.doneCh immutable
+//@ owner fsm.idleHoldTimer immutable
+//@ owner fsm.remoteID write=fsm read=manager sync=written-in-openSent-before-the-transition-rendezvous-that-the-manager-reads-it-after
+//@ owner fsm.conn write=fsm read=reader writewhen !readerRunning(self)
+//@ owner fsm.readerMsgCh write=fsm read=reader writewhen !readerRunning(self)
+//@ owner fsm.readerErrCh write=fsm read=reader writewhen !readerRunning(self)
+//@ owner fsm.readerDoneCh write=fsm read=reader writewhen !readerRunning(self)
+//@ owner fsm.closeReaderCh write=fsm read=reader writewhen !readerRunning(self)
+//@ owner fsm.closeReaderOnce write=fsm writewhen !readerRunning(self)
+//@ owner fsm.dialResultCh write=fsm read=dialer writewhen !dialPending(self)
+//@ owner fsm.cancelDialFn write=fsm writewhen !dialPending(self)
+//@ owner fsm.connectRetryTimer write=fsm
+//@ owner fsm.holdTimer write=fsm
+//@ owner fsm.holdTime write=fsm read=ka within=fsm.established
+//@ owner fsm.keepAliveTimer write=fsm read=ka within=fsm.established
+//@ owner fsm.keepAliveInterval write=fsm read=ka within=fsm.established
+
+// ---- updateMessageWriter: built in established before it is handed to the plugin ----
+//@ owner updateMessageWriter.conn immutable
+//@ owner updateMessageWriter.closeCh immutable
+//@ owner updateMessageWriter.resetKATimerCh immutable
